@@ -113,6 +113,50 @@ def do_replay(path):
     return False, out
 
 
+def run_probes(prop, known):
+    """Finding probes (DESIGN 11.4): programs under /verif/probes replay recorded failing inputs, and their neighbours, on the real code.  A case that fails
+    and is listed as an open finding is a KNOWN-FINDING; a case that fails and is not listed is a violation; listed cases that hold are only noted."""
+    pdir = os.path.join(VERIF, 'probes')
+    rows, vios, notes, hits = [], [], [], []
+    try:
+        reg = json.load(open(os.path.join(pdir, 'probes.json')))
+    except Exception:
+        return rows, vios, notes, hits, []
+    broken = []
+    for name, meta in sorted(reg.items()):
+        if prop not in meta.get('properties', []):
+            continue
+        src = os.path.join(pdir, name + '.cpp')
+        exe = os.path.join(core.OUT, 'replay', 'probe-' + name)
+        os.makedirs(os.path.dirname(exe), exist_ok=True)
+        rc, so, se, dt = core.run(['g++', '-std=c++17', '-O0', '-I', os.path.join(core.REPO, 'include'), src, '-o', exe], 600)
+        if rc != 0:
+            broken.append('finding probe %s does not build against the current tree: %s' % (name, se[-600:]))
+            continue
+        rc, so, se, dt = core.run([exe], 300)
+        seen = 0
+        for line in so.splitlines():
+            m = re.match(r'PROBE (\S+) (HOLDS|FAILS)(?:: (.*))?$', line)
+            if not m:
+                continue
+            seen += 1
+            case, verdict, detail = m.group(1), m.group(2), (m.group(3) or '')
+            kf = [k for k in known if k.get('status', 'open') == 'open' and k.get('probe') == name and k.get('case') == case]
+            rows.append({'probe': name, 'case': case, 'result': verdict.lower(), 'listed_finding': kf[0]['id'] if kf else None})
+            if verdict == 'FAILS' and kf:
+                hits.append((kf[0], detail))
+            elif verdict == 'FAILS':
+                rp = os.path.join(core.OUT, 'replay', '%s-probe-%s-%s.replay.txt' % (prop, name, case))
+                with open(rp, 'w') as f:
+                    f.write('property=%s\nprobe=%s\ncase=%s\n# the recorded input fails on the real code (not a listed finding):\n# %s\n# rerun: g++ -std=c++17 -I /repo/include %s -o probe && ./probe %s\n' % (prop, name, case, detail, src, case))
+                vios.append((name, case, detail, rp))
+            elif kf:
+                notes.append('finding %s (%s/%s) no longer fails on this tree' % (kf[0]['id'], name, case))
+        if rc != 0 or seen == 0:
+            broken.append('finding probe %s did not run to the end (exit %s): %s' % (name, rc, (se or so)[-400:]))
+    return rows, vios, notes, hits, broken
+
+
 def handle_failure(prop, mod, h, res, o, ctext, info, idx):
     """DESIGN 3.5: failed obligation -> trace -> replay file -> replay on the real code."""
     rdir = os.path.join(core.OUT, 'replay')
@@ -262,7 +306,7 @@ def main():
         # not counted among the obligations of the proof claim (neither as obligations nor as discharged)
         def known_for(o):
             for k in known:
-                if k.get('status', 'open') == 'open' and k['unit'] == mod.NAME and k['harness'] == h.name and k['obligation'] in o['desc']:
+                if k.get('status', 'open') == 'open' and k.get('unit') == mod.NAME and k.get('harness') == h.name and k.get('obligation') and k['obligation'] in o['desc']:
                     return k
             return None
         kf_fail = [(known_for(o), o) for o in rel if o['status'] != 'SUCCESS' and known_for(o)]
@@ -299,11 +343,26 @@ def main():
         for b in broken:
             print('CHECK-BROKEN property=%s %s' % (prop, b))
         exit_code = 2
+    probe_rows, probe_vios, probe_notes, probe_hits, probe_broken = run_probes(prop, known)
+    for b in probe_broken:
+        print('CHECK-BROKEN property=%s %s' % (prop, b)); broken.append(b)
+        exit_code = 2
     seen_k = set()
+    for kf, detail in probe_hits:
+        if kf['id'] not in seen_k:
+            seen_k.add(kf['id'])
+            print('KNOWN-FINDING: property=%s %s: %s' % (prop, kf['id'], kf['what']))
+    for n in probe_notes:
+        print('NOTE property=%s %s' % (prop, n))
     for kf, o in known_hit:
         if kf['id'] not in seen_k:
             seen_k.add(kf['id'])
             print('KNOWN-FINDING: property=%s %s: %s' % (prop, kf['id'], kf['what']))
+    for name, case, detail, rp in probe_vios:
+        print('VIOLATION property=%s replay=%s' % (prop, rp))
+        print('  finding probe %s, case %s fails on the real code and is not a listed finding: %s' % (name, case, detail[:300]))
+        vio_rows.append({'unit': 'probe:' + name, 'harness': case, 'obligation': 'finding-probe', 'desc': detail[:300], 'replay': rp, 'reproduced_on_real_code': True})
+        exit_code = 1
     if violations:
         # one replay per (unit, harness), first failing obligation; all failing obligations are listed
         done = {}
@@ -393,6 +452,7 @@ def main():
             'bounded_obligations_not_counted_as_proved': {'total': bounded_obl, 'passed': bounded_ok},
             'site_facts': site_facts,
             'replay_sweep_sampled_not_proof': sweeps,
+            'finding_probes_recorded_inputs_not_proof': probe_rows,
             'vacuity_guard_location_coverage': {'checked': len([v for v in vacuity if 'unreached_lines' in v]), 'with_unreached_code': [v for v in vacuity if v.get('unreached_lines', 0) > 1], 'not_run': [v for v in vacuity if 'result' in v]},
             'solver_seconds_total': round(solver_s, 1),
             'known_findings_matched': sorted(seen_k),
